@@ -546,3 +546,49 @@ func init() {
 		Assumptions:    []string{"sync.Pool modelled as a bag from which Get may return any pooled object (all choices explored) or call New when empty", "concurrent mixes of requests are not decided by this check (see level_note)"},
 	}
 }
+
+func init() {
+	props["C18"] = &PropSpec{
+		ID: "C18",
+		Jobs: func(tier string) []*Job {
+			var js []*Job
+			for g := 0; g < 4; g++ {
+				for v6 := 0; v6 < 2; v6++ {
+					js = append(js, &Job{Harness: "C18Ranges", Params: map[string]int{"group": g, "v6": v6}})
+				}
+			}
+			maxK, maxN := 3, 4
+			if tier == "thorough" {
+				maxK, maxN = 4, 6
+			}
+			for fwd := 0; fwd < 2; fwd++ {
+				for k := 0; k <= maxK; k++ {
+					if k == maxK && tier != "thorough" && fwd == 1 {
+						continue
+					}
+					js = append(js, &Job{Harness: "C18Designate", Params: map[string]int{"k": k, "fwd": fwd}})
+				}
+				for n := 0; n <= maxN; n++ {
+					js = append(js, &Job{Harness: "C18Prefix", Params: map[string]int{"n": n, "fwd": fwd}})
+				}
+			}
+			js = append(js, &Job{Harness: "C18Single", Params: map[string]int{}})
+			return js
+		},
+		Bounds: func(tier string) string {
+			k, n := 3, 4
+			if tier == "thorough" {
+				k, n = 4, 6
+			}
+			return fmt.Sprintf("(a) every IPv4 (2^32) and IPv6 (2^128, incl. IPv4-mapped) address against the default, private, loopback and link-local range groups, by solver; (b) header lists of up to %d entries from a 14-entry catalogue (public/private/loopback/link-local v4 and v6, ports, brackets, zones, quotes, Forwarded parameters and capitalisation, empty, junk, unspecified, padded), solver-chosen split over header instances, X-Forwarded-For and Forwarded, trusted counts and limits 1..4; (c) an attacker prefix of 0..%d arbitrary bytes (commas included) in the same or an earlier header instance, for the three rightmost strategies over suffixes of 1..2 catalogue entries; single-header, chain and remote-address resolvers over catalogue pairs", k, n)
+		},
+		RequiredCovers: []string{"IPv4 address inside the default ranges", "IPv6 address inside the default ranges", "IPv4-mapped address inside the default ranges",
+			"trusted count: designated entry", "trusted count: error", "non private: designated entry", "trusted range: designated entry", "trusted range: error",
+			"leftmost: designated entry", "single header: last instance", "chain falls through to the next resolver", "selection exists in the suffix"},
+		Assumptions: []string{
+			"the IP-literal grammar (net.ParseIP/netip) is executed natively on concrete entries; an attacker-controlled item that the code under test tries to parse as an address is modelled as: invalid when it contains a byte that cannot occur in an IP literal, otherwise one of a few literal addresses of that length, other spellings outside the bound (path pruned)",
+			"the in-package accessor for the default ranges is injected as a go build overlay from /verif/harness/overlay (no file is added to /repo)",
+			"reference for 'not globally routable': IANA IPv4/IPv6 special-purpose registries plus multicast and reserved space, listed in harness/c18.go",
+		},
+	}
+}
